@@ -10,6 +10,11 @@ for p in sorted(glob.glob(os.path.join(V, 'seeded', '*', 'meta.json'))):
     v = m.get('checks_on_changed_tree', {})
     tgt = v.get(m['breaks_property'], {})
     outcome = {1: 'VIOLATION (caught)', 2: 'undecided (exit 2)', 0: 'passes (missed)'}.get(tgt.get('exit'), '?')
+    fo = tgt.get('failed_obligations', [])
+    if tgt.get('exit') == 1 and fo and all(x.startswith('sweep.') for x in fo):
+        outcome = 'VIOLATION (bounded stand-in: function degraded, concrete oracle sweep)'
+    elif tgt.get('exit') == 1 and fo and all(x.startswith('kani.') for x in fo):
+        outcome = 'VIOLATION (Kani harness)' 
     und = sorted(k for k, x in v.items() if x.get('exit') == 2)
     first = ''
     rd = m.get('agent_readme', '')
@@ -26,9 +31,10 @@ out = ['# Seeded changes', '',
        '|---|---|---|---|---|---|---|']
 for r in rows:
     out.append('| %s | %s | %s | %s | %s | %s | %s |' % tuple(x.replace('|', '\\|') for x in r))
-caught = sum(1 for r in rows if r[3].startswith('VIOLATION'))
+caught = sum(1 for r in rows if r[3].startswith('VIOLATION') and 'bounded stand-in' not in r[3])
+bounded = sum(1 for r in rows if 'bounded stand-in' in r[3])
 und = sum(1 for r in rows if r[3].startswith('undecided'))
 miss = sum(1 for r in rows if r[3].startswith('passes'))
-out += ['', '%d changes: %d reported by the target property\'s check, %d undecided (exit 2, never an alarm), %d missed.' % (len(rows), caught, und, miss), '']
+out += ['', '%d changes: %d reported because an obligation of the target property fails (proof or complete/bounded Kani harness), %d deductively undecided and reported by the bounded stand-in (concrete oracle sweep), %d undecided (exit 2, never an alarm), %d missed.' % (len(rows), caught, bounded, und, miss), '']
 open(os.path.join(V, 'seeded', 'README.md'), 'w').write('\n'.join(out))
 print('\n'.join(out[-3:]))
